@@ -8,6 +8,9 @@ floor / ceiling of the x range, height filter) reports every existing cell that 
 within the y bounds of the query box — for every non-zero scale of ANY sign.  (The pinned tree skips the re-ordering; under a
 negative factor its index range is empty: `fixes/C19-heightfield-elements-in-aabb-negative-scale.diff`.)
 `hf2_elemsInAabb_sound`: every reported pair is an existing cell with its own segment.
+`hf2_elemsPinned_range_empty`: the pinned rule refuted in general (negative x scale, box over a vertex line: empty index range).
+`quantizeFloor_spec`, `hf2_startCell_contains`: the clamped floor written as a count is the floor; the start cell of the 2-D ray cast
+encloses the unscaled abscissa of the clip point, for every sign of the x scale.
 -/
 namespace C19
 open Model
@@ -212,5 +215,186 @@ example : letI := fieldNum ℚ (fun x => x)
   refine ⟨?_, by norm_num, by norm_num⟩
   simp [HeightField2.segmentAt, HeightField2.numCells, HeightField2.ucw, fieldNum_lit]
   norm_num
+
+/-! ## the start cell of the 2-D cast -/
+
+private theorem lit_nat3 (c : Nat) : @Model.lit K (fieldNum K sq) ((c : Nat) : Int) 1 = (c : K) := by
+  rw [fieldNum_lit]; simp [Rat.mkRat_one]
+
+private theorem filter_len_le' (N i : Nat) (p : Nat → Bool) (hp : ∀ k, k < N → p k = true → 1 ≤ k ∧ k ≤ i) :
+    ((List.range N).filter p).length ≤ i := by
+  have hnd : ((List.range N).filter p).Nodup := List.Nodup.filter _ List.nodup_range
+  have hsub : (List.range N).filter p ⊆ List.range' 1 i := by
+    intro k hk
+    rw [List.mem_filter, List.mem_range] at hk
+    have := hp k hk.1 hk.2
+    rw [List.mem_range']
+    exact ⟨k - 1, by omega, by omega⟩
+  have := (List.subperm_of_subset hnd hsub).length_le
+  simpa using this
+
+private theorem filter_len_ge' (N m : Nat) (p : Nat → Bool) (hm : m < N) (hp : ∀ j, 1 ≤ j → j ≤ m → p j = true) :
+    m ≤ ((List.range N).filter p).length := by
+  have hsub : List.range' 1 m ⊆ (List.range N).filter p := by
+    intro k hk
+    rw [List.mem_range'] at hk
+    obtain ⟨i, hi, rfl⟩ := hk
+    rw [List.mem_filter, List.mem_range]
+    exact ⟨by omega, hp _ (by omega) (by omega)⟩
+  have := (List.subperm_of_subset (List.nodup_range' (s := 1) (n := m)) hsub).length_le
+  simpa using this
+
+/-- **the clamped floor is the floor**: for `x = (val + 1/2) / w`, `c = quantize_floor(val, w, N)` satisfies `c ≤ N − 1`, `c ≤ x`
+when `c ≥ 1`, and `x < c + 1` unless the clamp at `N − 1` is active -/
+theorem quantizeFloor_spec (val w : K) (N : Nat) :
+    letI := fieldNum K sq
+    let c := HeightField3.quantizeFloor val w N
+    c ≤ N - 1 ∧ (1 ≤ c → (c : K) ≤ (val + 1 / 2) / w) ∧ (c + 1 ≤ N - 1 → (val + 1 / 2) / w < (c : K) + 1) := by
+  letI := fieldNum K sq
+  have hlit : @Model.lit K (fieldNum K sq) 1 2 = (1 / 2 : K) := by rw [fieldNum_lit]; norm_num
+  simp only [HeightField3.quantizeFloor, hlit, lit_nat3]
+  obtain ⟨p, hp⟩ : ∃ p : Nat → Bool, p = fun (k : Nat) => decide (1 ≤ k) && decide ((k : K) ≤ (val + 1 / 2) / w) := ⟨_, rfl⟩
+  rw [← hp]
+  have hpk : ∀ k, p k = true ↔ (1 ≤ k ∧ (k : K) ≤ (val + 1 / 2) / w) := by
+    intro k; rw [hp]; simp only [Bool.and_eq_true, decide_eq_true_eq]
+  obtain ⟨L, hL⟩ : ∃ L, L = ((List.range N).filter p).length := ⟨_, rfl⟩
+  rw [← hL]
+  refine ⟨?_, ?_, ?_⟩
+  · rw [hL]
+    apply filter_len_le'
+    intro k hk hq
+    exact ⟨((hpk k).1 hq).1, by omega⟩
+  · intro hc
+    by_contra hcon; push Not at hcon
+    have : L ≤ L - 1 := by
+      rw [hL]
+      apply filter_len_le'
+      intro k _ hq
+      refine ⟨((hpk k).1 hq).1, ?_⟩
+      have h1 : (k : K) < (((List.range N).filter p).length : K) := by rw [← hL]; exact lt_of_le_of_lt ((hpk k).1 hq).2 hcon
+      have h2 : k < ((List.range N).filter p).length := by exact_mod_cast h1
+      omega
+    omega
+  · intro hc
+    by_contra hcon; push Not at hcon
+    have := filter_len_ge' N (L + 1) p (by omega)
+      (by
+        intro j hj1 hj2
+        rw [hpk]
+        refine ⟨hj1, le_trans ?_ hcon⟩
+        have h1 : (j : K) ≤ ((L + 1 : Nat) : K) := by exact_mod_cast hj2
+        push_cast at h1; exact h1)
+    omega
+
+/-- **the start cell of the cast contains the clip point, mirrored or not**: for a point whose unscaled abscissa
+`u = pt.x / scale.x` lies in `[−1/2, 1/2]`, the cell `c` the cast starts from exists and `u` lies between the unscaled abscissae of
+its two vertices, `−1/2 + c/(n−1) ≤ u ≤ −1/2 + (c+1)/(n−1)` (any sign of `scale.x`: the division undoes the mirror). -/
+theorem hf2_startCell_contains (h : HeightField2 K) (pt : V2 K) (ox : K) (hn : 2 ≤ h.hs.size)
+    (hu1 : -(1 / 2 : K) ≤ pt.x / h.sc.x) (hu2 : pt.x / h.sc.x ≤ 1 / 2) :
+    letI := fieldNum K sq
+    let c := Hf2S.startCell h pt ox
+    c < h.numCells ∧ -(1 / 2 : K) + (c : K) / ((h.hs.size : K) - 1) ≤ pt.x / h.sc.x ∧
+      pt.x / h.sc.x ≤ -(1 / 2 : K) + ((c : K) + 1) / ((h.hs.size : K) - 1) := by
+  letI := fieldNum K sq
+  have hlit : @Model.lit K (fieldNum K sq) 1 2 = (1 / 2 : K) := by rw [fieldNum_lit]; norm_num
+  have hnK : (2 : K) ≤ (h.hs.size : K) := by exact_mod_cast hn
+  have hpos : (0 : K) < (h.hs.size : K) - 1 := by linarith
+  have hucw : @HeightField2.ucw K (fieldNum K sq) h = 1 / ((h.hs.size : K) - 1) := by
+    simp only [HeightField2.ucw, lit_nat3]
+  simp only [Hf2S.startCell, HeightField2.startCell, hlit]
+  rw [if_neg (by push Not; exact ⟨hu1, hu2⟩), hucw]
+  obtain ⟨h1, h2, h3⟩ := quantizeFloor_spec sq (pt.x / h.sc.x) (1 / ((h.hs.size : K) - 1)) (@HeightField2.numCells K h)
+  have hN : h.numCells = h.hs.size - 1 := rfl
+  have hx : (pt.x / h.sc.x + 1 / 2) / (1 / ((h.hs.size : K) - 1)) = (pt.x / h.sc.x + 1 / 2) * ((h.hs.size : K) - 1) := by
+    rw [div_div_eq_mul_div, div_one]
+  rw [hx] at h2 h3
+  obtain ⟨c, hc⟩ : ∃ c, c = @HeightField3.quantizeFloor K (fieldNum K sq) (pt.x / h.sc.x) (1 / ((h.hs.size : K) - 1)) h.numCells := ⟨_, rfl⟩
+  rw [← hc] at h1 h2 h3 ⊢
+  refine ⟨by omega, ?_, ?_⟩
+  · rcases Nat.eq_zero_or_pos c with h0 | h0
+    · rw [h0]; simp only [Nat.cast_zero, zero_div, add_zero]; exact hu1
+    · have h4 := h2 h0
+      have h5 : (c : K) / ((h.hs.size : K) - 1) ≤ pt.x / h.sc.x + 1 / 2 := by rw [div_le_iff₀ hpos]; exact h4
+      linarith
+  · rcases Nat.lt_or_ge (c + 1) h.numCells with hlt | hge
+    · have h4 := h3 (by omega)
+      have h5 : pt.x / h.sc.x + 1 / 2 < ((c : K) + 1) / ((h.hs.size : K) - 1) := by rw [lt_div_iff₀ hpos]; exact h4
+      linarith
+    · have hce : c + 1 = h.hs.size - 1 := by omega
+      have h4 : ((c : K) + 1) = (h.hs.size : K) - 1 := by
+        have h6 : ((c + 1 : Nat) : K) = ((h.hs.size - 1 : Nat) : K) := by rw [hce]
+        rw [Nat.cast_sub (by omega)] at h6; push_cast at h6; exact h6
+      rw [h4, div_self (ne_of_gt hpos)]; linarith
+
+
+/-! ## refutation of the pinned enumeration -/
+private theorem lit_nat4 (c : Nat) : @Model.lit K (fieldNum K sq) ((c : Nat) : Int) 1 = (c : K) := by
+  rw [fieldNum_lit]; simp [Rat.mkRat_one]
+
+private theorem filter_len_ge4 (N m : Nat) (p : Nat → Bool) (hm : m < N) (hp : ∀ j, 1 ≤ j → j ≤ m → p j = true) :
+    m ≤ ((List.range N).filter p).length := by
+  have hsub : List.range' 1 m ⊆ (List.range N).filter p := by
+    intro k hk
+    rw [List.mem_range'] at hk
+    obtain ⟨i, hi, rfl⟩ := hk
+    rw [List.mem_filter, List.mem_range]
+    exact ⟨by omega, hp _ (by omega) (by omega)⟩
+  have := (List.subperm_of_subset (List.nodup_range' (s := 1) (n := m)) hsub).length_le
+  simpa using this
+
+private theorem filter_len_le4 (N m : Nat) (p : Nat → Bool) (hp : ∀ j, p j = true → j < m) :
+    ((List.range N).filter p).length ≤ m := by
+  have hnd : ((List.range N).filter p).Nodup := List.Nodup.filter _ List.nodup_range
+  have hsub : (List.range N).filter p ⊆ List.range m := by
+    intro k hk
+    rw [List.mem_filter] at hk
+    rw [List.mem_range]
+    exact hp k hk.2
+  have := (List.subperm_of_subset hnd hsub).length_le
+  simpa using this
+
+/-- **refutation of the pinned enumeration under a mirrored field**: negative x scale, a query box with `lo.x < hi.x` that contains
+the vertical line through a vertex `v ≤ num_cells − 1` strictly inside its x range — so it meets both cells
+`v − 1` and `v` — gets the index range `min_x..max_x` with `max_x ≤ v ≤ min_x`: EMPTY, nothing is reported. -/
+theorem hf2_elemsPinned_range_empty (h : HeightField2 K) (lo hi : V2 K) (v : Nat) (hn : 2 ≤ h.hs.size) (hs : h.sc.x < 0)
+    (hv2 : v ≤ h.numCells - 1)
+    (hlo : lo.x < (-(1 / 2 : K) + (v : K) / ((h.hs.size : K) - 1)) * h.sc.x)
+    (hhi : (-(1 / 2 : K) + (v : K) / ((h.hs.size : K) - 1)) * h.sc.x < hi.x) :
+    letI := fieldNum K sq
+    (Hf2S.elemsPinnedRange h lo hi).2 ≤ v ∧ v ≤ (Hf2S.elemsPinnedRange h lo hi).1 := by
+  letI := fieldNum K sq
+  have hlit : @Model.lit K (fieldNum K sq) 1 2 = (1 / 2 : K) := by rw [fieldNum_lit]; norm_num
+  have hnK : (2 : K) ≤ (h.hs.size : K) := by exact_mod_cast hn
+  have hpos : (0 : K) < (h.hs.size : K) - 1 := by linarith
+  have hN : h.numCells = h.hs.size - 1 := rfl
+  -- the box corners in the unscaled frame: swapped by the negative scale
+  have h1 : -(1 / 2 : K) + (v : K) / ((h.hs.size : K) - 1) < lo.x / h.sc.x := by
+    rw [lt_div_iff_of_neg hs]; exact hlo
+  have h2 : hi.x / h.sc.x < -(1 / 2 : K) + (v : K) / ((h.hs.size : K) - 1) := by
+    rw [div_lt_iff_of_neg hs]; exact hhi
+  have e (y : K) : (y + 1 / 2) / (1 / ((h.hs.size : K) - 1)) = (y + 1 / 2) * ((h.hs.size : K) - 1) := by
+    rw [div_div_eq_mul_div, div_one]
+  have hvm : (v : K) / ((h.hs.size : K) - 1) * ((h.hs.size : K) - 1) = (v : K) := div_mul_cancel₀ _ (ne_of_gt hpos)
+  simp only [Hf2S.elemsPinnedRange, Hf2S.quantizeCeil, HeightField3.quantizeFloor, HeightField2.ucw, lit_nat4, hlit, e]
+  constructor
+  · apply filter_len_le4
+    intro j hj
+    simp only [decide_eq_true_eq] at hj
+    have : (j : K) < (v : K) := by
+      have : (hi.x / h.sc.x + 1 / 2) * ((h.hs.size : K) - 1) < (v : K) := by
+        have := mul_lt_mul_of_pos_right (show hi.x / h.sc.x + 1 / 2 < (v : K) / ((h.hs.size : K) - 1) by linarith) hpos
+        rw [hvm] at this; exact this
+      linarith
+    exact_mod_cast this
+  · apply filter_len_ge4 _ _ _ (by omega)
+    intro j hj1 hj2
+    simp only [Bool.and_eq_true, decide_eq_true_eq]
+    refine ⟨hj1, ?_⟩
+    have hjK : (j : K) ≤ (v : K) := by exact_mod_cast hj2
+    have : (v : K) < (lo.x / h.sc.x + 1 / 2) * ((h.hs.size : K) - 1) := by
+      have := mul_lt_mul_of_pos_right (show (v : K) / ((h.hs.size : K) - 1) < lo.x / h.sc.x + 1 / 2 by linarith) hpos
+      rw [hvm] at this; exact this
+    linarith
+
 
 end C19
